@@ -18,6 +18,7 @@ import (
 	"encoding/hex"
 	"fmt"
 	"math/rand"
+	"strings"
 	"time"
 
 	"github.com/piotrnar/gocoin/lib/btc"
@@ -95,9 +96,28 @@ func txSegs(tx *btc.Tx) (s []Seg) {
 // A name with a trailing digit is a second valid instance of the same wire command (see wireName).
 var allCmds = []string{"version", "verack", "addr", "inv", "getdata", "notfound", "getblocks", "getheaders", "headers", "headers2",
 	"tx", "txo1", "txo2", "block", "block2", "cmpctblock", "cmpctblock2", "cmpctblock3", "cmpctblock4", "getblocktxn", "getblocktxn1", "getblocktxn3", "blocktxn", "blocktxn2", "idle", "ping", "pong",
-	"feefilter", "sendcmpct", "sendheaders", "getaddr", "getmp", "getmpdone", "xauth", "authack", "filterload", "unknown", "frame"}
+	"feefilter", "sendcmpct", "sendheaders", "getaddr", "getmp", "getmpdone", "xauth", "authack", "filterload", "unknown", "frame",
+	// block locators against a tree with a dead side branch (S1 - S2 forking off below the active tip)
+	"getheadersS", "getheadersP", "getheadersSA", "getheadersAS", "getheadersU", "getheadersT", "getheadersE", "getheadersEA", "getheadersXS", "getheadersXU",
+	"getblocksS", "getblocksP", "getblocksSA", "getblocksAS", "getblocksU", "getblocksT", "getblocksXS", "getblocksXU"}
+
+// locatorVariant: "getheadersXS" -> "XS"
+func locatorVariant(cmd string) (string, bool) {
+	for _, p := range []string{"getheaders", "getblocks"} {
+		if strings.HasPrefix(cmd, p) && len(cmd) > len(p) {
+			return cmd[len(p):], true
+		}
+	}
+	return "", false
+}
 
 func wireName(cmd string) string {
+	if _, ok := locatorVariant(cmd); ok {
+		if strings.HasPrefix(cmd, "getheaders") {
+			return "getheaders"
+		}
+		return "getblocks"
+	}
 	switch cmd {
 	case "unknown":
 		return "verifxyz"
@@ -120,6 +140,37 @@ func wireName(cmd string) string {
 // valid returns the valid instance of cmd. nodeNonce: the 8-byte nonce the node announced in its own version
 // message on this connection (xauth signs it); nil before it is known.
 func (w *World) valid(cmd string, nodeNonce []byte) []Seg {
+	if v, ok := locatorVariant(cmd); ok {
+		var loc [][32]byte
+		stop := make([]byte, 32)
+		switch v {
+		case "S": // the tip of the side branch
+			loc = [][32]byte{w.side2Hash}
+		case "P": // a block of the side branch that is not its tip
+			loc = [][32]byte{w.side1Hash}
+		case "SA":
+			loc = [][32]byte{w.side2Hash, w.midHash}
+		case "AS":
+			loc = [][32]byte{w.midHash, w.side2Hash}
+		case "U":
+			loc = [][32]byte{w.unkHash[0]}
+		case "T":
+			loc = [][32]byte{w.tipHash}
+		case "E": // empty locator: the stop hash alone names the block
+			stop = w.side2Hash[:]
+		case "EA":
+			stop = w.midHash[:]
+		case "XS":
+			loc, stop = [][32]byte{w.midHash, w.genesis}, w.side2Hash[:]
+		case "XU":
+			loc, stop = [][32]byte{w.midHash, w.genesis}, w.unkHash[1][:]
+		}
+		s := []Seg{segF(le32(70016)), segC(uint64(len(loc)), 32)}
+		for i := range loc {
+			s = append(s, segF(loc[i][:]))
+		}
+		return append(s, segF(stop))
+	}
 	switch cmd {
 	case "version":
 		var s []Seg
